@@ -79,6 +79,16 @@ pub fn run(tier: Tier) -> i32 {
             }
         }
     }
+    // maximal index depths, and one two-level multi-block file per codec
+    for l in [254u8, 255] {
+        others.push(FileSpec::new(FileCfg::layout(Some(1024), Some(2), l), EntrySpec::Uniform { n: 5, klen: 600, vlen: 1, wide: false }));
+        others.push(FileSpec::new(FileCfg::layout(None, None, l), EntrySpec::Uniform { n: 3, klen: 2, vlen: 2, wide: false }));
+    }
+    for (c, lv) in vlib::fam::CODECS_ONE {
+        if c != 0 {
+            others.push(FileSpec::new(FileCfg::layout(Some(1024), Some(2), 1).with_codec(c, lv), EntrySpec::Uniform { n: 14, klen: 3, vlen: 300, wide: false }));
+        }
+    }
     let n_uni = subsets.len() * cfgs.len();
     let deadline = Deadline::after(Duration::from_secs(tier.pick(50, 3000)));
     let acc = par_for(n_uni + others.len(), 16, &deadline, |i, acc| {
@@ -103,6 +113,10 @@ pub fn run(tier: Tier) -> i32 {
                 }
                 Err(_) => acc.count("prerequisite_failed_writer_error_(C01)", 1),
             }
+        }
+        // two iterators over sources sharing one file position, advanced alternately
+        if blocks >= 3 && (!uni_file || i % 16 == 0) {
+            crate::qcheck::shared_position_pass("C05", &spec, &bytes, &model, &qs, acc);
         }
         acc.count("entries_yielded", yielded);
         if blocks > spec.cfg.index_levels as usize + 2 {
